@@ -1,21 +1,121 @@
 package main
 
 import (
+	"encoding/json"
+	"flag"
 	"fmt"
-	"golang.org/x/tools/go/packages"
-	"golang.org/x/tools/go/ssa"
-	"golang.org/x/tools/go/ssa/ssautil"
-	"golang.org/x/tools/go/callgraph/cha"
-	"golang.org/x/tools/go/callgraph/vta"
+	"os"
+	"sort"
+	"strings"
+	"time"
 )
 
+type propDef struct {
+	ID  string
+	Run func(c *Ctx)
+}
+
+var registry = map[string]func(c *Ctx){}
+
+func register(id string, f func(c *Ctx)) { registry[id] = f }
+
 func main() {
-	cfg := &packages.Config{Mode: packages.LoadAllSyntax, Dir: "/repo"}
-	pkgs, err := packages.Load(cfg, "./...")
-	if err != nil { panic(err) }
-	fmt.Println(len(pkgs), packages.PrintErrors(pkgs))
-	prog, _ := ssautil.AllPackages(pkgs, ssa.InstantiateGenerics)
-	prog.Build()
-	cg := vta.CallGraph(ssautil.AllFunctions(prog), cha.CallGraph(prog))
-	fmt.Println(len(cg.Nodes))
+	prop := flag.String("property", "", "property id (C01..C20), comma list, or 'all'")
+	tier := flag.String("tier", "quick", "quick|thorough")
+	repo := flag.String("repo", "/repo", "repository working tree to analyse")
+	verif := flag.String("verif", "/verif", "verif directory (evidence, reports, known_findings.json)")
+	replay := flag.String("replay", "", "report file: re-run the rules that failed in it")
+	only := flag.String("rule", "", "run only this rule id")
+	dump := flag.String("dump", "", "debug: dump SSA of function pkgrel:Name")
+	verbose := flag.Bool("v", false, "list every obligation")
+	flag.Parse()
+
+	if *replay != "" {
+		b, err := os.ReadFile(*replay)
+		if err != nil {
+			fmt.Println(err)
+			os.Exit(2)
+		}
+		var rp struct {
+			Property   string `json:"property"`
+			Tier       string `json:"tier"`
+			Violations []Obl  `json:"violations"`
+		}
+		if json.Unmarshal(b, &rp) != nil || rp.Property == "" {
+			fmt.Println("bad replay file")
+			os.Exit(2)
+		}
+		*prop = rp.Property
+		if rp.Tier != "" {
+			*tier = rp.Tier
+		}
+		fmt.Printf("replaying property %s (%d recorded violations)\n", rp.Property, len(rp.Violations))
+	}
+	start := time.Now()
+	w, err := LoadWorld(*repo, nil)
+	if err != nil {
+		// fail closed: no verdict on a program that does not load
+		ids := expand(*prop)
+		for _, id := range ids {
+			fmt.Printf("load failure: %v\n", err)
+			c := &Ctx{W: &World{Repo: *repo}, Prop: id, Tier: *tier}
+			c.Rule(id+".LOAD", "the repository loads and type-checks", 1, func(r *Rule) {
+				r.Fail("load", 0, err.Error())
+			})
+			c.Explanation = "load failed"
+			c.Finish(*verif, start)
+		}
+		os.Exit(1)
+	}
+	if *dump != "" {
+		i := strings.LastIndex(*dump, ":")
+		fn := w.Func((*dump)[:i], (*dump)[i+1:])
+		if fn == nil {
+			fmt.Println("not found")
+			os.Exit(2)
+		}
+		for _, f := range WithAnon(fn) {
+			f.WriteTo(os.Stdout)
+		}
+		return
+	}
+	rc := 0
+	for _, id := range expand(*prop) {
+		f := registry[id]
+		if f == nil {
+			fmt.Printf("no rules registered for %s\n", id)
+			rc = 2
+			continue
+		}
+		t0 := time.Now()
+		if len(expand(*prop)) == 1 {
+			t0 = start
+		}
+		c := &Ctx{W: w, Prop: id, Tier: *tier, Only: *only}
+		c.loadKnown(*verif + "/known_findings.json")
+		f(c)
+		if *verbose {
+			for _, r := range c.Rules {
+				for _, o := range r.Obls {
+					fmt.Printf("  obl %s %-60s %-40s ok=%v %s\n", o.Rule, o.Key, o.Pos, o.OK, oneLine(o.Detail))
+				}
+			}
+		}
+		if r := c.Finish(*verif, t0); r > rc {
+			rc = r
+		}
+	}
+	os.Exit(rc)
+}
+
+func expand(p string) []string {
+	if p == "all" {
+		var ids []string
+		for id := range registry {
+			ids = append(ids, id)
+		}
+		sort.Strings(ids)
+		return ids
+	}
+	return strings.Split(p, ",")
 }
